@@ -3,7 +3,7 @@
    denominator D (U = M / D); every quantity of the model is homogeneous in U (an n-photon
    amplitude has degree n), so the harness divides by D^n.  Definitions only. *)
 From Coq Require Import ZArith List Bool.
-From PV Require Import Comb.FockModel C01.PermModel.
+From PV Require Import Comb.FockModel C01.PermModel C01.PruneModel.
 Import ListNotations.
 Local Open Scope nat_scope.
 
@@ -72,3 +72,26 @@ Definition helpers_flat (d cutoff : nat) : list Z :=
 Definition passive_flat (d : nat) (s : list nat) (gates : list (list nat * zM * Zi)) : list Z :=
   let r := passive_case d s gates in
   (if passive_consistent d s r then 1%Z else 0%Z) :: zM_flat (fst (fst r)) ++ zil_flat (snd (fst r)).
+
+(* ---- SLOS with post-selection pruning *)
+Definition z_slos_vector_pruned := slos_vector_pruned Zi zi0 zi1 zi_add zi_mul.
+
+Fixpoint lln_eqb (a b : list (list nat)) : bool :=
+  match a, b with
+  | [], [] => true
+  | x :: r, y :: s => list_nat_eqb x y && lln_eqb r s
+  | _, _ => false
+  end.
+
+(* flag: at every level k <= n the transcription of partitions_bounded_k equals the filtered
+   sector (bases_spec); then the pruned vector and the final basis, flat *)
+Definition pruned_flat (U : zM) (d : nat) (cons : cons_t) (s : list nat) : list Z :=
+  let n := total s in
+  let ok := forallb (fun k => lln_eqb (partitions_bounded_k d k cons (n - k)) (bases_spec d cons n k))
+                    (seq 0 (S n)) in
+  (if ok then 1%Z else 0%Z)
+    :: zil_flat (z_slos_vector_pruned U d cons s)
+    ++ map Z.of_nat (concat (bases_spec d cons n n)).
+
+Definition pbk_flat (boxes particles : nat) (cons : cons_t) (klimit : nat) : list Z :=
+  map Z.of_nat (concat (partitions_bounded_k boxes particles cons klimit)).
